@@ -6,6 +6,7 @@ import (
 	"sync"
 
 	yaml "gopkg.in/yaml.v2"
+	"github.com/douban/gobeansdb/utils"
 )
 
 type CollisionTable struct {
@@ -65,6 +66,10 @@ func (table *CollisionTable) dump(path string) {
 	if err != nil {
 		logger.Errorf("unmarshal yaml faild %s: %s", path, err.Error())
 		return
+	}
+	if utils.VerifOn {
+		utils.Verif("fs.pre", "collision", path)
+		defer utils.Verif("fs.post", "collision", path)
 	}
 	err = ioutil.WriteFile(path, content, 0644)
 	if err != nil {
